@@ -9,6 +9,8 @@
 package remux
 
 import (
+	"bytes"
+
 	"github.com/q191201771/lal/pkg/base"
 )
 
@@ -58,6 +60,7 @@ type GopCache struct {
 	MetadataEnsureWithoutSetDataFrame []byte
 	VideoSeqHeader                    []byte
 	AacSeqHeader                      []byte
+	videoSeqHeaderPayload             []byte // 最近一个video seq header的payload，用于判断seq header内容是否发生变化
 
 	gopRing              []Gop
 	gopRingFirst         int
@@ -111,6 +114,12 @@ func (gc *GopCache) Feed(msg base.RtmpMsg, b []byte) bool {
 		}
 	case base.RtmpTypeIdVideo:
 		if msg.IsVideoKeySeqHeader() {
+			if gc.videoSeqHeaderPayload != nil && !bytes.Equal(gc.videoSeqHeaderPayload, msg.Payload) {
+				// 注意，seq header内容发生变化，之前缓存的gop无法用新的seq header解码，清空
+				gc.gopRingFirst = 0
+				gc.gopRingLast = 0
+			}
+			gc.videoSeqHeaderPayload = append(gc.videoSeqHeaderPayload[:0], msg.Payload...)
 			gc.VideoSeqHeader = b
 			Log.Debugf("[%s] cache %s video seq header. size:%d", gc.uniqueKey, gc.t, len(gc.VideoSeqHeader))
 			return true
@@ -144,6 +153,7 @@ func (gc *GopCache) Clear() {
 	gc.MetadataEnsureWithoutSetDataFrame = nil
 	gc.VideoSeqHeader = nil
 	gc.AacSeqHeader = nil
+	gc.videoSeqHeaderPayload = nil
 	gc.gopRingLast = 0
 	gc.gopRingFirst = 0
 }
